@@ -69,6 +69,39 @@ Fixpoint prolog (fuel : nat) (s : str) (i : nat) (total : nat) : nat :=
   end.
 Definition root_start (s : str) : nat := Nat.min (prolog (S (List.length s)) s 0 (List.length s)) (List.length s).
 
+(* __rootStartTag: from the end of the document type declaration on - processing instructions, comments and white space are
+   passed over, then the start tag of the root element runs to the first '>' outside a quoted attribute value.
+   misc: the index where the root element begins (total when something does not end or nothing follows) *)
+Fixpoint misc (fuel : nat) (s : str) (i : nat) (total : nat) : nat :=
+  match fuel with
+  | O => total
+  | S f =>
+      match s with
+      | [] => total
+      | c :: r =>
+          if starts sPI s then
+            match find_from sPIEND s 0 with Some j => misc f (skipn (j + 2) s) (i + j + 2) total | None => total end
+          else if starts sCOM s then
+            match find_from sCOMEND (skipn 4 s) 4 with Some j => misc f (skipn (j + 3) s) (i + j + 3) total | None => total end
+          else if is_prolog_ws c then misc f r (S i) total
+          else i
+      end
+  end.
+(* tag_end: the index of the '>' that ends the tag entered at index i (the length of the text when there is none) *)
+Fixpoint tag_end (s : str) (i : nat) (quote : option cp) : nat :=
+  match s with
+  | [] => i
+  | c :: r =>
+      match quote with
+      | Some q => tag_end r (S i) (if c =? q then None else quote)
+      | None => if (c =? 34) || (c =? 39) then tag_end r (S i) (Some c)
+                else if c =? 62 then i else tag_end r (S i) None
+      end
+  end.
+Definition root_begin (s : str) : nat :=
+  Nat.min (misc (S (List.length s)) (skipn (root_start s) s) (root_start s) (List.length s)) (List.length s).
+Definition root_stop (s : str) : nat := tag_end (skipn (root_begin s) s) (root_begin s) None.
+
 (* re.search('[ \t\r\n]xmlns:'): the first white-space character that is followed by the needle, at or after position i *)
 Fixpoint find_ws_then (needle s : str) (i : nat) : option nat :=
   match s with
@@ -91,10 +124,12 @@ Definition prefixes : list str := map s2l ["meta"; "config"; "dc"; "style"; "svg
 Definition decl (p : str) : str := (32 :: sXMLNS) ++ p ++ s2l "=""urn:oasis:names:tc:opendocument:xmlns:" ++ p ++ s2l ":1.0""".
 Definition insert_at (s : str) (i : nat) (x : str) : str := firstn i s ++ x ++ skipn i s.
 
-Definition fix_one (orig : str) (start : nat) (result p : str) : str :=
+(* pattern.search(result, begin, stop'): the match lies wholly in front of stop' = where the root's start tag ends in the text
+   patched so far (everything inserted so far was inserted in front of it) *)
+Definition fix_one (orig : str) (start begin stop : nat) (result p : str) : str :=
   if declared p (skipn start orig) then result
-  else match find_ws_then sXMLNS (skipn start result) start with
+  else match find_ws_then sXMLNS (firstn (stop + List.length result - List.length orig - begin) (skipn begin result)) begin with
        | Some pos => insert_at result pos (decl p)
        | None => result
        end.
-Definition fix_part (s : str) : str := fold_left (fix_one s (root_start s)) prefixes s.
+Definition fix_part (s : str) : str := fold_left (fix_one s (root_start s) (root_begin s) (root_stop s)) prefixes s.
